@@ -194,11 +194,17 @@ func (db *DB) rawset(entry types.Entry) {
 	if db.memtable.size() >= db.config.MemtableByteThreshold {
 		db.memtable.freeze()
 		imt := db.memtable
+		next := imt.reset()
+
+		// list the frozen memtable before it is queued and swap the active one
+		// under the lock readers hold, so that a reader always finds the data
+		// in the active memtable, the list or (once flushed) L0
+		db.mu.Lock()
+		db.immutables.PushBack(imt)
+		db.memtable = next
+		db.mu.Unlock()
 
 		db.flushC <- imt
-		db.immutables.PushBack(imt)
-
-		db.memtable = db.memtable.reset()
 	}
 }
 
@@ -223,8 +229,14 @@ LOOP:
 			db.flushImmutable(imt)
 			db.manager.checkAndCompact()
 
+			// remove the memtable that was flushed (not the newest one)
 			db.mu.Lock()
-			db.immutables.Remove(db.immutables.Back())
+			for e := db.immutables.Front(); e != nil; e = e.Next() {
+				if e.Value.(*memtable) == imt {
+					db.immutables.Remove(e)
+					break
+				}
+			}
 			db.mu.Unlock()
 
 			if closed && len(db.flushC) == 0 {
